@@ -99,4 +99,59 @@ requires
     valid(*cell), cell.resolution >= 0,
 //@end
 
+//@extract fn lonlat_to_cell from src/core/cell.rs ret=res tags=C14
+//@fnattr #[verifier::loop_isolation(false)]
+//@rewrite "!(0..MAX_RESOLUTION).contains(&resolution)" => "!(0 <= resolution && resolution < MAX_RESOLUTION)"
+//@rewrite "let scale = 50.0 / 2.0_f64.powi(hilbert_resolution);" => "let scale = f_scale(hilbert_resolution);"
+//@rewrite "let r = (i as f64 / n as f64) * scale;\n        let coordinate = LonLat::new(\n            lonlat.longitude() + (i as f64).cos() * r,\n            lonlat.latitude() + (i as f64).sin() * r,\n        );" => "let coordinate = f_sample(lonlat, i, n, scale);"
+//@rewrite "let mut estimate_set = HashSet::new();" => "let mut estimate_set = KeySet::new();"
+//@rewrite "for sample in samples {" => "for __ks in 0..samples.len() {\n        let sample = samples[__ks];"
+//@rewrite "unique_estimates.push(estimate.clone());" => "unique_estimates.push(cell_clone(&estimate));"
+//@rewrite "let mut cells = Vec::new();" => "let mut cells: Vec<(A5Cell, f64)> = Vec::new();"
+//@rewrite "let mut unique_estimates = Vec::new();" => "let mut unique_estimates: Vec<A5Cell> = Vec::new();"
+//@rewrite "cells.sort_by(|a, b| b.1.partial_cmp(&a.1).unwrap_or(std::cmp::Ordering::Equal));" => "sort_cells_by_distance(&mut cells);"
+//@spec
+ensures
+    (resolution < -1 || resolution > 29) ==> res is Err,                           // [C14:lonlat_to_cell.rejects-range]
+    res is Ok ==> canonical(res->Ok_0) && res_of(res->Ok_0) == resolution,         // [C14:lonlat_to_cell.valid-result]
+//@at entry
+proof {
+    lemma_res_of_enc(world());
+    assert(valid(world()));
+}
+//@at after-let estimate #1
+proof {
+    lemma_norm_valid(estimate);
+    lemma_res_of_enc(norm(estimate));
+}
+//@loop 1
+invariant
+    samples@.len() == 1 + i,
+//@loop 2
+invariant
+    samples@.len() == 26,
+    forall|k: int| 0 <= k < cells@.len() ==> (#[trigger] cells@[k]).0.origin_id < 12 && cells@[k].0.segment < 5
+        && cells@[k].0.resolution == resolution && cells@[k].0.s < s_limit(resolution as int),
+    __ks == 0 ==> estimate_set@ == Set::<u64>::empty(),
+    __ks >= 1 ==> cells@.len() >= 1,
+//@at after-let estimate_key
+proof {
+    assert(ser_defined(estimate));
+    lemma_norm_valid(estimate);
+    lemma_res_of_enc(norm(estimate));
+    assert(valid(estimate));
+}
+//@at before "sort_cells_by_distance(&mut cells);"
+let ghost before = cells@;
+//@at before-tail
+proof {
+    let c0 = cells@[0];
+    assert(before.contains(c0));
+    let j = choose|j: int| 0 <= j < before.len() && before[j] == c0;
+    assert(before[j].0.origin_id < 12);
+    lemma_norm_valid(c0.0);
+    lemma_res_of_enc(norm(c0.0));
+}
+//@end
+
 } // verus!
